@@ -17,6 +17,31 @@ CHECKS = {
             "For ~230 programs (12 hand-written to reach every resolver-call site of execution.rs + one representative per feature signature of the enumerated query space) all read-ahead schedules with <= 2 (quick) / <= 3 (thorough) deviations from 'no read-ahead' are executed; the row sequence must equal the default schedule's and no schedule may panic. Replay-prefix divergence and replay non-determinism are machinery errors.",
             "Read-ahead amounts {0,1,2,all}; FIFO wrapper; programs above 90 choice points stay at d=2 in the thorough tier (listed in evidence).",
             "DESIGN.md §4 C02"),
+    "C03": ("model_checking",
+            "exhaustive enumeration of consumer-stop points: for every case of the enumerated query space and every prefix length j of its result stream, a fresh execution over a pull-counting lazy adapter",
+            "For every (query, dataset, arguments) case within the deviation bound and every j in 0..=rows: the starting-vertex pull counter is 0 before the first next(), at most 1 + the index of the start vertex that owns row j after j rows (ownership from the reference evaluator), and unchanged by dropping the iterator. States = distinct (rows yielded, vertices pulled) pairs; every run is an execution of the real engine.",
+            "Strictly lazy adapter; cases whose rows disagree with the reference are left to C01.",
+            "DESIGN.md §4 C03"),
+    "C05": ("exploration",
+            "bounded-exhaustive program-space enumeration with an in-adapter monitor: every resolve_property call is checked against ResolveInfo::required_properties()",
+            "Every resolve_property call made while executing every accepted query within the deviation bound over five data-rich graphs must name a property listed (once) in the vertex's required_properties() hint.",
+            "Calls are observed where data flows; the hint itself depends only on the query.",
+            "DESIGN.md §4 C05"),
+    "C11": ("exploration",
+            "bounded-exhaustive program-space enumeration; each accepted query's IR is checked by an independent structural-invariant checker (I1-I9)",
+            "Every IR the frontend produces for the enumerated query space (k<=2 quick, k<=3 thorough; ~36k / ~2.5M queries) satisfies: Eid i -> Vid i+1, dense unique ids, one incoming edge per non-root vertex, folds precede their contents and Eids nest as intervals, edges go low->high, tags visible and defined no later than their use, imported_tags = exactly the parent-defined tags used inside the fold (no duplicates), variables recorded with the intersection of their use types and all used, outputs unique and indexed, all names defined in the schema text.",
+            "Invariants are the checker's reading of ir/indexed.rs's comment and execution.rs's asserts (listed in DESIGN.md).",
+            "DESIGN.md §4 C11"),
+    "C13": ("exploration",
+            "bounded-exhaustive program-space enumeration; declared outputs re-derived from the AST and every row value checked against the declared type with an independent typing relation",
+            "For every accepted query within the bound: IndexedQuery.outputs (names and types) equals what the query text and schema imply (property type, nullable under @optional, one list level per @fold, nullable list when the fold is under @optional, Int! counts); for every row of every case: keys = declared names, each value fits its declared type.",
+            "Datasets hold schema-conforming values.",
+            "DESIGN.md §4 C13"),
+    "C21": ("exploration",
+            "bounded-exhaustive program-space enumeration with a contract-checking adapter wrapper on every resolver call and every context entering a call",
+            "Every resolver call of every case within the bound names a defined type, a property/edge defined on it (or __typename), a coercion target that is a subtype, exactly the declared edge parameters with values of the declared types; every non-null active vertex entering a call is an instance of the named type (checked against the dataset's real vertex types).",
+            "Schema model parsed independently from the schema text.",
+            "DESIGN.md §4 C21"),
     "C06": ("model_checking",
             "explicit-state search over candidate values: BFS closure from ~1300 seed states, every transition calls the real intersect / exclude_single_value / normalize and is compared with a reference denotation (bitmask over a probe universe)",
             "All seed candidates (Impossible, All, Single, Multiple up to 3 values in both orders, every Range over the bound alphabet with every bound kind and null inclusion) for an integer sort (signed/unsigned boundaries) and a string sort; every ordered pair is intersected, every value excluded, every state normalised; the state space is closed under these operations (no new states appear), so the search is a fixpoint.",
